@@ -11,9 +11,12 @@
     op              : {"k":"write","addr":A,"val":V,"en":E} | {"k":"read","addr":A,"n":N}
                       | {"k":"restruct"} | {"k":"copy"} | {"k":"shift","zone":K,"off":d}
                       | {"k":"merge","ops":[op,...]}       (other map = run of the nested ops)
+                      | {"k":"fork"}  (append a copy of map m)  | {"k":"mergecopy","src":j}  (m.merge(copy of map j))
+                      every op may carry "m": index of the live map it addresses (default 0)
   ops
-    {"op":"mem.run","ops":[...]}  → one entry per op: {"res":…, "zones":[[key,[[vaddr,val,en],…],cache,wf],…]}
-         res: "ok" | "MemoryError" | {"items":[…], "flat":[desc|null,…]}
+    {"op":"mem.run","ops":[...]}  → one entry per op: {"res":…, "maps":[zones of every live map]},
+         zones = [[key,[[vaddr,val,en],…],cache,wf],…]
+         res: "ok" | "MemoryError" | "KeyError" | "nomap" | {"items":[…], "flat":[desc|null,…]}
     {"op":"mem.check","map":[[vaddr,val,en],…],"cache":[…]} → Bool   (Zone.check on a dumped real zone)
     {"op":"mem.checks","zones":[{"map":…,"cache":…},…]} → [Bool,…]
     {"op":"mem.abs","map":[[vaddr,val,en],…],"lo":a,"n":n} → [desc|null,…]   (abs of a dumped zone)
@@ -148,13 +151,45 @@ partial def step (mm : MMap) : Op → MMap × Json
     let other := ops.foldl (fun acc o => (step acc o).1) MMap.empty
     (mm.merge other, Json.str "ok")
 
+/-- an op of a workspace history: which live map, and what. -/
+inductive WsOp
+  | on (m : Nat) (op : Op)
+  | fork (m : Nat)
+  | mergeCopy (m src : Nat)
+
+def wsOpOfJson (j : Json) : Except String WsOp := do
+  let m := match getNat j "m" with
+    | .ok m => m
+    | .error _ => 0
+  let k ← getStr j "k"
+  if k == "fork" then return .fork m
+  else if k == "mergecopy" then return .mergeCopy m (← getNat j "src")
+  else return .on m (← opOfJson j)
+
+def wsStep (ws : List MMap) : WsOp → List MMap × Json
+  | .fork m =>
+    match ws[m]? with
+    | some _ => (WOp.apply ws (.fork m), Json.str "ok")
+    | none => (ws, Json.str "nomap")
+  | .mergeCopy m src =>
+    match ws[m]?, ws[src]? with
+    | some _, some _ => (WOp.apply ws (.mergeCopy m src), Json.str "ok")
+    | _, _ => (ws, Json.str "nomap")
+  | .on m op =>
+    match ws[m]? with
+    | some mm =>
+      let (mm', r) := step mm op
+      (ws.set m mm', r)
+    | none => (ws, Json.str "nomap")
+
 def opRun (j : Json) : Json :=
-  match (do let a ← getArr j "ops"; a.toList.mapM opOfJson : Except String (List Op)) with
+  match (do let a ← getArr j "ops"; a.toList.mapM wsOpOfJson : Except String (List WsOp)) with
   | .error e => jerr e
   | .ok ops =>
-    let (_, out) := ops.foldl (fun (acc : MMap × Array Json) o =>
-      let (mm', r) := step acc.1 o
-      (mm', acc.2.push (Json.mkObj [("res", r), ("zones", jlist zoneJson mm'.zones)]))) (MMap.empty, #[])
+    let (_, out) := ops.foldl (fun (acc : List MMap × Array Json) o =>
+      let (ws', r) := wsStep acc.1 o
+      (ws', acc.2.push (Json.mkObj [("res", r),
+        ("maps", jlist (fun (mm : MMap) => jlist zoneJson mm.zones) ws')]))) ([MMap.empty], #[])
     Json.arr out
 
 def opCheck (j : Json) : Json :=
